@@ -1,0 +1,31 @@
+//go:build verif
+
+// Verification contracts for package storage, property C22 (different topics never share storage or
+// metadata keys). Comment-only; read by /verif/govc. The key specs (c22ObjKey, c22SegPrefix, ...) and the
+// lemmas about them are in /verif/spec/topickeys.spec.
+//
+// For a topic name accepted by topic creation (c22SafeTopic: not empty, no '/', not "." or "..", no ':')
+// path.Join cannot clean anything away after the namespace, so every S3 key of partition (t, p) is
+// pathPfx(namespace) + t + "/" + p + "/" + file and its list prefix is pathPfx(namespace) + t + "/" + p + "/".
+
+package storage
+
+//@ func (l *PartitionLog) segmentKey
+//@   ensures [C22.shape.segmentKey] c22SafeTopic(l.topic) ==> result == c22ObjKey(pathPfx(l.namespace), l.topic, fmtd(l.partition), "segment-" + fmtd0(baseOffset, 20) + ".kfs")
+//@ func (l *PartitionLog) indexKey
+//@   ensures [C22.shape.indexKey] c22SafeTopic(l.topic) ==> result == c22ObjKey(pathPfx(l.namespace), l.topic, fmtd(l.partition), "segment-" + fmtd0(baseOffset, 20) + ".index")
+//@ func (l *PartitionLog) segmentPrefix
+//@   ensures [C22.shape.segmentPrefix] c22SafeTopic(l.topic) ==> result == c22SegPrefix(pathPfx(l.namespace), l.topic, fmtd(l.partition))
+//@ func (l *PartitionLog) cacheTopicKey
+//@   ensures [C22.shape.cacheTopicKey] c22SafeTopic(l.topic) ==> result == c22CacheTopic(pathPfx(l.namespace), l.topic)
+//@ func segmentObjectKey
+//@   ensures [C22.shape.segmentObjectKey] c22SafeTopic(topic) ==> result == c22ObjKey(pathPfx(namespace), topic, fmtd(partition), "segment-" + fmtd0(baseOffset, 20) + ".kfs")
+//@ func segmentIndexKey
+//@   ensures [C22.shape.segmentIndexKey] c22SafeTopic(topic) ==> result == c22ObjKey(pathPfx(namespace), topic, fmtd(partition), "segment-" + fmtd0(baseOffset, 20) + ".index")
+
+// The one prefix scan of the broker's data path: restoring a partition lists exactly that partition's prefix
+// (exploration is cut after the listing; the rest of RestoreFromS3 belongs to C06).
+//@ func (l *PartitionLog) RestoreFromS3
+//@   requires c22SafeTopic(l.topic) && l.s3 != nil
+//@   at ListSegments#1 before assert [C22.restore_lists_own_prefix] arg1 == c22SegPrefix(pathPfx(l.namespace), l.topic, fmtd(l.partition))
+//@   at ListSegments#1 after stop
